@@ -6633,6 +6633,13 @@ fn eval_expr(
                 // No more expressions to evaluate in this function, we're returning.
                 let stack_frame = env.current_frame_mut();
                 stack_frame.exprs_to_eval.clear();
+
+                // The blocks we're returning out of never reach
+                // their own clean-up, so drop their bindings here. A
+                // function's frame is discarded next anyway, but the
+                // toplevel frame lives on.
+                stack_frame.bindings.block_bindings.truncate(1);
+                stack_frame.bindings_next_block.clear();
             } else {
                 env.push_expr_to_eval(
                     ExpressionState::EvaluatedSubexpressions,
